@@ -2,14 +2,14 @@
 {
  "property": "C03",
  "standin": "B-layout",
- "bound": "generated test files through Example.run_inline: 23 statement layouts x 5 headers x 21 argument edits x 6 flag sets, LF/CRLF, formatter-clean and not clean (C03); 9 pyproject [tool.black] variants x 5 shapes x values around the line limit (C20); Is()/f-string/star-expression/nested-snapshot name inside list/tuple/dict/call at every position (C10); containers of hand-written element expressions, depth<=2, width<=4, random edit scripts + all sequence pairs over 3 symbols up to length 3 (C11)",
+ "bound": "generated test files through Example.run_inline: 23 statement layouts x 6 headers x 21 argument edits x 6 flag sets, LF/CRLF, formatter-clean and not clean (C03); 9 pyproject [tool.black] variants x 5 shapes x values around the line limit (C20); Is()/f-string/star-expression/nested-snapshot name inside list/tuple/dict/call at every position (C10); containers of hand-written element expressions, depth<=2, width<=4, random edit scripts + all sequence pairs over 3 symbols up to length 3 (C11)",
  "input": {
   "prop": "C03",
-  "name": "ops/plain/crlf",
-  "flags": "fix",
-  "source": "from inline_snapshot import snapshot\ndef test_a():\n    x = \"\u00e4\"; assert 6 in snapshot([1, 5]); assert 30 <= snapshot(10); s = snapshot({\"a\": 1}); assert s[\"b\"] == 2\n"
+  "name": "second_stmt_after/pagebreak",
+  "flags": "create,fix",
+  "source": "from inline_snapshot import snapshot\n\f\n# page two \u2028 same comment\nsep = 'a\u0085b'\ndef test_a():\n    assert [\"\u00e4\", \"\u00fc\ud83d\ude00\", \"\u00f6\"] == snapshot([\"\u00e4\", \"\u00f6\"])\n    assert 1 == snapshot(\n\n    )\n    x = \"\u00e4\"  # tail\n"
  },
- "detail": "[C03 ops/plain/crlf flags=fix] [other] rewritten file is not valid Python: invalid syntax (test_something.py, line 3)\n--- before ---\nfrom inline_snapshot import snapshot\r\ndef test_a():\r\n    x = \"\u00e4\"; assert 6 in snapshot([1, 5]); assert 30 <= snapshot(10); s = snapshot({\"a\": 1}); assert s[\"b\"] == 2\r\n\n--- after ---\nfrom inline_snapshot import snapshot\r\ndef test_a():\r\n    x = \"\u00e4\"; assert 6 in snapshot([1, 5, 6]); assert 30 <= snapshot(130; s = snapshot({\"a\": 1}); assert s[\"b\"] == 2\r\n"
+ "detail": "[C03 second_stmt_after/pagebreak flags=create,fix] [other] rewritten file is not valid Python: invalid character '\ud83d\ude00' (U+1F600) (test_something.py, line 6)\n--- before ---\nfrom inline_snapshot import snapshot\n\f\n# page two \u2028 same comment\nsep = 'a\u0085b'\ndef test_a():\n    assert [\"\u00e4\", \"\u00fc\ud83d\ude00\", \"\u00f6\"] == snapshot([\"\u00e4\", \"\u00f6\"])\n    assert 1 == snapshot(\n\n    )\n    x = \"\u00e4\"  # tail\n\n--- after ---\nfrom inline_snapshot import snapshot\n\f\n# page two \u2028 same comment\nsep = 'a\u0085b'\ndef test_a():\n    asse1assert [\"\u00e4\", \", \"\u00fc\ud83d\ude00\", \", \"\u00f6\"] == snapshot([\"\u00e4\", \"\u00f6\"])\n    assert 1 == snapshot(\n\n    )\n    x = \"\u00e4\"  # tail\n"
 }
 """
 
@@ -62,8 +62,8 @@ def rerun_identity(src):
         inline_snapshot.snapshot = real
 
 import ast
-SRC = 'from inline_snapshot import snapshot\r\ndef test_a():\r\n    x = "ä"; assert 6 in snapshot([1, 5]); assert 30 <= snapshot(10); s = snapshot({"a": 1}); assert s["b"] == 2\r\n'
-FLAGS = 'fix'
+SRC = 'from inline_snapshot import snapshot\n\x0c\n# page two \u2028 same comment\nsep = \'a\x85b\'\ndef test_a():\n    assert ["ä", "ü😀", "ö"] == snapshot(["ä", "ö"])\n    assert 1 == snapshot(\n\n    )\n    x = "ä"  # tail\n'
+FLAGS = 'create,fix'
 CWD_FILES = {}
 files = {'test_something.py': SRC}
 files.update(CWD_FILES)
@@ -71,9 +71,8 @@ after, raised = run_inline(files, FLAGS, cwd_files=CWD_FILES)
 new = after['test_something.py']
 print(new)
 compile(new.replace('\r\n', '\n'), 'test_something.py', 'exec')  # C03: still valid Python
-assert '\r\n' in new or new == SRC, 'F8: CRLF line endings were replaced by LF'
 # the detail text of the failure names the violated oracle; the generic checks that can be replayed stand-alone follow
-EXPECT_GREEN = False
+EXPECT_GREEN = True
 if EXPECT_GREEN:
     rerun_identity(new)
 import black
@@ -101,7 +100,7 @@ if black.format_str(lf, mode=mode) != lf:  # not formatter-clean: byte for byte 
 # finally the exact oracle of the stand-in (needs /verif on sys.path)
 sys.path.insert(0, '/verif')
 from bounded import b_layout
-CASE = {'prop': 'C03', 'name': 'ops/plain/crlf', 'src': 'from inline_snapshot import snapshot\ndef test_a():\n    x = "ä"; assert 6 in snapshot([1, 5]); assert 30 <= snapshot(10); s = snapshot({"a": 1}); assert s["b"] == 2\n', 'flags': 'fix', 'changed': [0, 1], 'crlf': True, 'make_clean': False, 'mode_opts': {}, 'expect_green': False}
+CASE = {'prop': 'C03', 'name': 'second_stmt_after/pagebreak', 'src': 'from inline_snapshot import snapshot\n\x0c\n# page two \u2028 same comment\nsep = \'a\x85b\'\ndef test_a():\n    assert ["ä", "ü😀", "ö"] == snapshot(["ä", "ö"])\n    assert 1 == snapshot(\n\n    )\n    x = "ä"  # tail\n', 'flags': 'create,fix', 'changed': [0, 1], 'crlf': False, 'make_clean': False, 'mode_opts': {}, 'expect_green': True}
 out = b_layout.eval_case(CASE)
 assert out['status'] != 'fail', out['detail']
 
